@@ -231,6 +231,13 @@ func redactCommand(cmd *orderedmap.OrderedMap[string, any], shouldEagerRedact bo
 			cmd.Set("u", redactArrayValues(updateArr, shouldEagerRedact, false, false, []string{}))
 		}
 	}
+	if constants, ok := cmd.Get("c"); ok {
+		if constantsMap, ok := constants.(*orderedmap.OrderedMap[string, any]); ok {
+			// an update statement logged on its own ({q, u, c, ...}): the constants its
+			// pipeline refers to are literals like those of u
+			cmd.Set("c", redactQueryValues(constantsMap, shouldEagerRedact, false, nil, []string{}))
+		}
+	}
 	if _, isInsert := cmd.Get("insert"); isInsert {
 		if docs, ok := cmd.Get("documents"); ok {
 			if docsArr, ok := docs.([]any); ok {
